@@ -57,6 +57,8 @@ type StopCase struct {
 	// standard library's: deriving from it costs the standard library a watcher goroutine, which has to go
 	// away with the derived context
 	CustomCtx bool `json:",omitempty"`
+	// HoldMs: how long the gated handler stays blocked after the cancellation (cancel_gate; 0 = 30 ms)
+	HoldMs int `json:",omitempty"`
 	// Chop != 0: the master's bytes arrive in pieces (see fakemaster.ConnPlan.Chop)
 	Chop uint32 `json:",omitempty"`
 }
@@ -287,6 +289,18 @@ func runStop(c *StopCase) *StopObs {
 		})
 		cleanup = func() { logHook.Store(func(bool) {}) }
 		at = attempt{l: l, pacing: c.Pacing}
+	case "handler_panic":
+		// the handler panics in its At-th call; the caller recovers (the harness goroutine that runs Stream)
+		np := 0
+		at = attempt{l: l, pacing: c.Pacing, handler: func(tx *gobinlog.Transaction, st *attemptState) error {
+			np++
+			if np == f.At {
+				obs.CauseFired = true
+				atomic.StoreInt32(&quiet, 1)
+				panic(handlerPanic{})
+			}
+			return nil
+		}}
 	case "handler_err_cancel":
 		nn := 0
 		at = attempt{l: l, pacing: c.Pacing, handler: func(tx *gobinlog.Transaction, st *attemptState) error {
@@ -404,7 +418,11 @@ func runStop(c *StopCase) *StopObs {
 			if f.Kind == "cancel_gate" {
 				doCancel()
 				// stay inside the handler a little longer: Stream must not return while its handler call is still running
-				for d := time.Now().Add(30 * time.Millisecond); time.Now().Before(d) && atomic.LoadInt32(&st.returned) == 0; {
+				hold := 30
+				if c.HoldMs > 0 {
+					hold = c.HoldMs
+				}
+				for d := time.Now().Add(time.Duration(hold) * time.Millisecond); time.Now().Before(d) && atomic.LoadInt32(&st.returned) == 0; {
 					time.Sleep(200 * time.Microsecond)
 				}
 			}
